@@ -417,6 +417,11 @@ func (f *File) WriteAt(b []byte, off int64) (int, error) {
 		if end < off || end > f.fs.maxSize() {
 			return &os.PathError{Op: "writeat", Path: f.path, Err: syscall.EFBIG}
 		}
+		if len(b) == 0 {
+			// memfs deviation: an empty WriteAt beyond EOF bumps the inode size without
+			// storing anything; POSIX pwrite of 0 bytes changes nothing
+			return nil
+		}
 		var e error
 		n, e = f.f.WriteAt(b, off)
 		return e
